@@ -64,7 +64,7 @@ def finalize(m: dict, tier: str) -> list[str]:
         if not s.get(f"estimated:{shape}"):
             out.append(f"shape {shape} never had its estimate compared with a signed transaction")
     for k in ("sig-size:71", "sig-size:72", "funding:change-created", "funding:change-folded-into-fee", "funding:insufficient-refused",
-              "funding:near-dust", "funding:near-fee", "fees:fee_from_vsize", "fees:package_fee", "fees:dust_threshold", "amount:sats", "amount:btc",
+              "funding:near-dust", "funding:near-fee", "funding:outputs:252", "fees:fee_from_vsize", "fees:package_fee", "fees:dust_threshold", "amount:sats", "amount:btc",
               "amount:refused", "block:sizes"):
         if not s.get(k) and not c.get(k):
             out.append(f"{k} never observed")
@@ -292,9 +292,10 @@ def shard_funding(ctx: Ctx) -> None:
             FeeRate.from_sats_per_vbyte(Decimal(r.choice(["1", "1.001", "0.999", "2.5", "17.333", "100"])))
         change = r.choice(change_scripts)
         sizer = g.sizer(fl)
-        n_out = r.choice([1, 1, 2])
+        # the output count crosses the CompactSize boundary with and without the change output (251/252/253 payments)
+        n_out = r.choice([1, 1, 2]) if it % 8 else r.choice([251, 252, 252, 253])
         # first learn the fee the builder will ask for this shape of transaction, then aim the remainder at a boundary
-        probe_outs = [TxOut(1000, ScriptPubKey(b"\x00\x14" + bytes([j]) * 20)) for j in range(n_out)]
+        probe_outs = [TxOut(1000, ScriptPubKey(b"\x00\x14" + bytes([j % 256]) * 20)) for j in range(n_out)]
         po = outcome(build_psbt, inputs, probe_outs, rate, change, sizer=sizer)
         if po[0] == "raise":
             if not is_lib_exc(po[1]):
@@ -320,7 +321,9 @@ def shard_funding(ctx: Ctx) -> None:
         pay = total_in - remainder
         if pay < n_out:
             continue
-        outs = [TxOut(pay // n_out + (pay % n_out if j == 0 else 0), ScriptPubKey(b"\x00\x14" + bytes([j]) * 20)) for j in range(n_out)]
+        outs = [TxOut(pay // n_out + (pay % n_out if j == 0 else 0), ScriptPubKey(b"\x00\x14" + bytes([j % 256]) * 20)) for j in range(n_out)]
+        if n_out > 200:
+            ctx.stats[f"funding:outputs:{n_out}"] += 1
         o = outcome(build_psbt, inputs, outs, rate, change, sizer=sizer)
         case = {"shapes": shapes, "total_in": total_in, "outputs": [x.value for x in outs], "rate_sat_per_kvB": rate.sats_per_kvbyte,
                 "change_script": change.hex() if change else None, "remainder": remainder, "target": target}
